@@ -325,19 +325,24 @@ def run(ctx, rep, model=True):
     dirs = sessions.two_directories(ctx, seed, "c12dirs_", ndims=3, nf=2, data="bits", B=2, layout="scatter")
 
     def action(k, name, spec_, truth):
-        pck = PlotfileCooker(name)
-        for lv in range(len(spec_["levels"])):
-            nb = len(spec_["levels"][lv])
-            pooled = [arr_obs(a) for a in pck[:][lv][:]]
-            one_by_one = [arr_obs(pck[:][lv][b]) for b in range(nb)]
-            if pooled != one_by_one:
-                return f"level {lv} of the plotfile opened as {name!r}: the boxes read through the pool differ from the boxes read one by one"
+        try:
+            pck = PlotfileCooker(name)
+            for lv in range(len(spec_["levels"])):
+                nb = len(spec_["levels"][lv])
+                # (a single read in this process first, then the pool, then single reads again)
+                first = arr_obs(pck[:][lv][0])
+                pooled = [arr_obs(a) for a in pck[:][lv][:]]
+                one_by_one = [arr_obs(pck[:][lv][b]) for b in range(nb)]
+                if pooled != one_by_one or first != one_by_one[0]:
+                    return f"level {lv} of the plotfile opened as {name!r}: the boxes read through the pool differ from the boxes read one by one"
+        except Exception as e:
+            return f"reading the plotfile opened as {name!r} through the pool raised {type(e).__name__}: {e}"
         return None
     bad = sessions.visit(dirs, action)
     if bad:
         rep.fail("reader: " + bad, case)
     # workers that are started afresh instead of forked
-    for name in (["combine", "whip", "colander"] if ctx.quick else [n for n in S if n in refs and not n.endswith("-serial") and not n.startswith("chef")]):
+    for name in (["combine", "whip", "colander", "mandoline2d-pool", "mandoline3d-pool"] if ctx.quick else [n for n in S if n in refs and not n.endswith("-serial") and not n.startswith("chef")]):
         if name not in refs:
             continue
         case = {"scenario": name, "workers": "spawn"}
